@@ -1,7 +1,11 @@
 """C01 — slim and native forms are exact, order-preserving inverses under any mask."""
 from __future__ import annotations
 
+import copy as _copy
+import hashlib
 import itertools
+import json
+import math
 from fractions import Fraction
 
 import numpy as np
@@ -12,6 +16,491 @@ from common import PropertyCheck, Skip, load_autoarray, mask_json, q, qlist
 
 def _mask2d(aa, m, scales=(1.0, 1.0), origin=(0.0, 0.0)):
     return aa.Mask2D(mask=np.array(m, dtype=bool), pixel_scales=scales, origin=origin)
+
+
+# ======================================================================================================
+# Round-4 hardening, part 1: REUSE HISTORIES on real objects (kind "hist")
+#
+# A history is a list of typed steps on a small world of real library objects: one or two masks (Mask2D, or
+# Mask1D when case["dim"] == 1), DeriveIndexes2D objects the user keeps, and named structures.  `_hist_walk`
+# is pure bookkeeping on the INPUT (what the mask bits / the values of every structure are after each step);
+# it yields one snapshot per observing step.  Every observation is compared with the model's value and the
+# oracle's direct expectation for a FRESH object in the state of the snapshot.
+# ======================================================================================================
+class HistInvalid(Exception):
+    """the history is not well-formed (only raised for shrink candidates)"""
+
+
+_INDEX_NAMES = {"nfs": "native_for_slim", "unm": "unmasked_slim", "msk": "masked_slim", "pix": "pixels_in_mask"}
+_ARITH = {"mul2": lambda v: 2 * v, "neg": lambda v: -v, "add1": lambda v: v + 1}
+
+
+def _mask_state(mj, dim1):
+    if dim1:
+        return {"h": None, "w": len(mj["bits"]), "bits": [c == "1" for c in mj["bits"]]}
+    return {"h": mj["h"], "w": mj["w"], "bits": [c == "1" for c in mj["bits"]]}
+
+
+def _cell_index(ms, cell):
+    if ms["h"] is None:
+        i = cell[0]
+        if not 0 <= i < ms["w"]:
+            raise HistInvalid("cell")
+        return i
+    y, x = cell[0], cell[1]
+    if not (0 <= y < ms["h"] and 0 <= x < ms["w"]):
+        raise HistInvalid("cell")
+    return y * ms["w"] + x
+
+
+def _hist_walk(case):
+    """yield a snapshot dict for every observing step (read_index / read_struct) of the history"""
+    dim1 = case.get("dim") == 1
+    masks = [_mask_state(mj, dim1) for mj in case["masks"]]
+    structs = {}
+    for st in case["steps"]:
+        op = st["op"]
+        if op in ("hold_di", "decoy", "caller_edit"):
+            if "name" in st and (st["name"] not in structs or not structs[st["name"]]["alive"]):
+                raise HistInvalid("name")
+            if op == "caller_edit":
+                s = structs[st["name"]]
+                if s["struct"] != "array" or s["container"] == "list":
+                    raise HistInvalid("caller_edit")
+            if "m" in st and not 0 <= st["m"] < len(masks):
+                raise HistInvalid("m")
+        elif op == "read_index":
+            if dim1 or not 0 <= st["m"] < len(masks):
+                raise HistInvalid("read_index")
+            ms = masks[st["m"]]
+            yield {"what": "index", "h": ms["h"], "w": ms["w"], "bits": list(ms["bits"]), "order": st["order"]}
+        elif op == "edit_mask":
+            ms = masks[st["m"]]
+            for cell in st["cells"]:
+                ms["bits"][_cell_index(ms, cell)] = bool(cell[-1])
+            if all(ms["bits"]):
+                raise HistInvalid("no unmasked pixel left")
+            for s in structs.values():  # structures built on the old mask contents have no defined meaning now
+                if s["m"] == st["m"]:
+                    s["alive"] = False
+        elif op == "build":
+            ms = masks[st["m"]]
+            n_un = ms["bits"].count(False)
+            want = len(ms["bits"]) if st["form"] == "native" else n_un
+            if len(st["values"]) != want:
+                raise HistInvalid("values length")
+            if (st["struct"] == "array1d") != dim1:
+                raise HistInvalid("struct")
+            structs[st["name"]] = {"struct": st["struct"], "m": st["m"], "form": st["form"], "sn": st["sn"],
+                                   "vals": list(st["values"]), "container": st.get("container", "float"),
+                                   "alive": True}
+        elif op == "read_struct":
+            s = structs.get(st["name"])
+            if s is None or not s["alive"]:
+                raise HistInvalid("name")
+            ms = masks[s["m"]]
+            yield {"what": "struct", "struct": s["struct"], "h": ms["h"], "w": ms["w"], "bits": list(ms["bits"]),
+                   "form": s["form"], "sn": s["sn"], "vals": list(s["vals"]), "views": st["views"]}
+        elif op == "edit_struct":
+            s = structs.get(st["name"])
+            if s is None or not s["alive"] or (s["form"] == "native") != s["sn"]:
+                raise HistInvalid("edit_struct")
+            if not 0 <= st["index"] < len(s["vals"]):
+                raise HistInvalid("index")
+            s["vals"][st["index"]] = st["value"]
+        elif op == "derive":
+            s = structs.get(st["from"])
+            if s is None or not s["alive"]:
+                raise HistInvalid("from")
+            how = st["how"]
+            d = dict(s)
+            if how in _ARITH:
+                f = _ARITH[how]
+                if s["struct"] in ("array", "array1d"):
+                    d["vals"] = [q(f(Fraction(v))) for v in s["vals"]]
+                else:
+                    d["vals"] = [[q(f(Fraction(a))), q(f(Fraction(b)))] for a, b in s["vals"]]
+            elif how in ("copy", "deepcopy"):
+                d["vals"] = list(s["vals"])
+            else:
+                raise HistInvalid("how")
+            structs[st["name"]] = d
+        elif op == "fault":
+            how = st["how"]
+            if how == "stale_read":
+                s = structs.get(st["name"])
+                if s is None or not s["alive"]:
+                    raise HistInvalid("name")
+                ms = masks[s["m"]]
+                i = _cell_index(ms, st["cell"])
+                bits = list(ms["bits"])
+                bits[i] = not bits[i]
+                if all(bits):
+                    raise HistInvalid("stale_read")
+            elif not 0 <= st.get("m", 0) < len(masks):
+                raise HistInvalid("m")
+        else:
+            raise HistInvalid(f"op {op}")
+
+
+def _snap_mask_json(snap):
+    return {"h": snap["h"], "w": snap["w"], "bits": "".join("1" if b else "0" for b in snap["bits"])}
+
+
+def _snap_requests(snap):
+    """driver requests for a FRESH object in the snapshot's state"""
+    if snap["what"] == "index":
+        mk = _snap_mask_json(snap)
+        return [{"op": "c01.native_for_slim", "mask": mk},
+                {"op": "c01.mask_slim_indexes", "mask": mk, "flag": False},
+                {"op": "c01.mask_slim_indexes", "mask": mk, "flag": True},
+                {"op": "c01.total_pixels", "mask": mk}]
+    if snap["struct"] == "array1d":
+        return [{"op": "c01.array1d_convert", "bits": "".join("1" if b else "0" for b in snap["bits"]),
+                 "values": snap["vals"], "store_native": snap["sn"]}]
+    op = "c01.array_convert" if snap["struct"] == "array" else "c01.grid_convert"
+    return [{"op": op, "mask": _snap_mask_json(snap), "form": snap["form"], "values": snap["vals"],
+             "store_native": snap["sn"]}]
+
+
+def _snap_fold(snap, responses):
+    for r in responses:
+        if "err" in r:
+            return {"err": r["err"]}
+    if snap["what"] == "index":
+        full = {"native_for_slim": responses[0]["ok"], "unmasked_slim": responses[1]["ok"],
+                "masked_slim": responses[2]["ok"], "pixels_in_mask": responses[3]["ok"]}
+        return {_INDEX_NAMES[k]: full[_INDEX_NAMES[k]] for k in snap["order"]}
+    r = responses[0]["ok"]
+    st = r["stored"]
+    out = {"stored": st["stored"] if isinstance(st, dict) else st}
+    for v in snap["views"]:
+        out[v] = r[v]
+    return out
+
+
+def _conv_for(struct):
+    if struct in ("array", "array1d"):
+        return (lambda x: Fraction(x)), 0
+    return (lambda x: (Fraction(x[0]), Fraction(x[1]))), (0, 0)
+
+
+def _expected_views(struct, bits, form, vals):
+    """the property, directly: (.slim, .native) of a structure whose constructor received `vals` in `form`"""
+    conv, zero = _conv_for(struct)
+    v = [conv(x) for x in vals]
+    unm = [i for i, b in enumerate(bits) if not b]
+    exp_slim = v if form == "slim" else [v[i] for i in unm]
+    exp_native = [zero] * len(bits)
+    for k, i in enumerate(unm):
+        exp_native[i] = exp_slim[k]
+    return exp_slim, exp_native
+
+
+def _oracle_snapshot(snap, got, where):
+    if isinstance(got, dict) and "err" in got:
+        return False, f"{where}: the read raised {got}"
+    if snap["what"] == "index":
+        w, bits = snap["w"], snap["bits"]
+        unm = [i for i, b in enumerate(bits) if not b]
+        msk = [i for i, b in enumerate(bits) if b]
+        exp = {"native_for_slim": [[i // w, i % w] for i in unm], "unmasked_slim": unm, "masked_slim": msk,
+               "pixels_in_mask": len(unm)}
+        for k in snap["order"]:
+            name = _INDEX_NAMES[k]
+            if got.get(name) != exp[name]:
+                return False, (f"{where}: {name} does not describe the mask as it is now "
+                               f"(got {got.get(name)}, the mask's unmasked flat indices are {unm})")
+        return True, ""
+    conv, _ = _conv_for(snap["struct"])
+    exp_slim, exp_native = _expected_views(snap["struct"], snap["bits"], snap["form"], snap["vals"])
+    for view, exp in (("slim", exp_slim), ("native", exp_native)):
+        if view in snap["views"] and [conv(x) for x in got[view]] != exp:
+            return False, (f"{where}: .{view} of the {snap['struct']} (input form {snap['form']}, "
+                           f"store_native={snap['sn']}) is not what a freshly built equal object reports")
+    want = "native" if snap["sn"] else "slim"
+    if got.get("stored") != want:
+        return False, f"{where}: stored form {got.get('stored')} != requested {want}"
+    return True, ""
+
+
+def _np_values(struct, form, vals, h, w):
+    if struct in ("array", "array1d"):
+        a = np.array([float(Fraction(v)) for v in vals])
+        if form == "native" and struct == "array":
+            a = a.reshape(h, w)
+        return a
+    a = np.array([[float(Fraction(p[0])), float(Fraction(p[1]))] for p in vals]).reshape(-1, 2)
+    if form == "native":
+        a = a.reshape(h, w, 2)
+    return a
+
+
+def _box(a, cont):
+    if cont == "int":
+        return a.astype(np.int64)
+    if cont == "list":
+        return a.tolist()
+    return a
+
+
+def _flat_view(struct, arr):
+    arr = np.asarray(arr)
+    if struct in ("array", "array1d"):
+        return qlist(arr.ravel())
+    return [qlist(p) for p in arr.reshape(-1, 2)]
+
+
+def _quiet(f):
+    try:
+        return f()
+    except Exception:
+        return None
+
+
+def _decoy_mask(mask, dim1):
+    """read every OTHER public derived quantity of a mask (results and exceptions are ignored)"""
+    if dim1:
+        for n in ("pixels_in_mask", "shape_slim", "shape_native", "is_all_false", "is_all_true", "geometry",
+                  "derive_grid", "pixel_scale", "native"):
+            _quiet(lambda n=n: getattr(mask, n))
+        _quiet(lambda: np.asarray(mask.derive_grid.all_false))
+        return
+    for grp, names in (("derive_indexes", ("edge_slim", "border_slim", "edge_native", "border_native")),
+                       ("derive_mask", ("edge", "border", "all_false", "edge_buffed")),
+                       ("derive_grid", ("unmasked", "edge", "border", "all_false"))):
+        g = _quiet(lambda grp=grp: getattr(mask, grp))
+        if g is None:
+            continue
+        for n in names:
+            _quiet(lambda g=g, n=n: np.asarray(getattr(g, n)))
+    for n in ("geometry", "shape_native", "shape_slim", "pixels_in_mask", "is_all_false", "is_all_true",
+              "mask_centre", "shape_native_masked_pixels", "zoom_centre", "zoom_offset_pixels", "zoom_region",
+              "zoom_shape_native", "zoom_mask_unmasked", "native", "pixel_scale", "is_circular",
+              "circular_radius", "hdu_for_output"):
+        _quiet(lambda n=n: getattr(mask, n))
+    _quiet(lambda: mask.derive_mask.blurring_from(kernel_shape_native=(3, 3)))
+
+
+def _decoy_struct(s):
+    for n in ("native_skip_mask", "binned_across_rows", "binned_across_columns", "shape_slim", "shape_native",
+              "total_pixels", "geometry", "unmasked_grid", "origin", "pixel_area", "total_area", "pixel_scales",
+              "derive_indexes", "derive_mask", "derive_grid", "store_native", "values", "magnitudes", "y", "x",
+              "flipped", "in_radians", "is_uniform", "scaled_minima", "scaled_maxima",
+              "shape_native_scaled_interior", "original_orientation", "readout_offsets", "hdu_for_output"):
+        _quiet(lambda n=n: getattr(s, n))
+    _quiet(lambda: np.asarray(s.native.array))
+    _quiet(lambda: np.asarray(s.slim.array))
+    _quiet(lambda: np.asarray(s.derive_indexes.native_for_slim))
+
+
+def _shrink_hist(case):
+    steps = case["steps"]
+    for i in range(len(steps) - 1, -1, -1):
+        cand = {**case, "steps": steps[:i] + steps[i + 1:]}
+        try:
+            if not list(_hist_walk(cand)):
+                continue
+        except HistInvalid:
+            continue
+        yield cand
+    if len(case["masks"]) > 1 and not any(st.get("m", 0) == 1 for st in steps):
+        yield {**case, "masks": case["masks"][:1]}
+
+
+# ======================================================================================================
+# Round-4 hardening, part 2: SIZE-DIRECTED large cases (kind "large"), judged by a vectorised oracle
+#
+# A large case is a compact RECIPE (shape, mask recipe, value flavour), expanded deterministically with
+# integer numpy arithmetic, so evidence and replays stay small.  The implementation's arrays are summarised
+# losslessly enough for an exact verdict: shape + sha1 of the float64 bytes + probes at fixed positions.
+# ======================================================================================================
+_MASK_CACHE = {}
+_U = np.uint64
+
+
+def _mix(a, b, seed):
+    """deterministic 64-bit integer hash of two index arrays (wrap-around arithmetic, no RNG involved)"""
+    with np.errstate(over="ignore"):
+        z = a.astype(_U) * _U(0x9E3779B97F4A7C15) + b.astype(_U) * _U(0xBF58476D1CE4E5B9) \
+            + _U((seed * 0x94D049BB133111EB + 0x2545F4914F6CDD1D) % (1 << 64))
+        z ^= z >> _U(30)
+        z = z * _U(0xBF58476D1CE4E5B9)
+        z ^= z >> _U(27)
+        z = z * _U(0x94D049BB133111EB)
+        z ^= z >> _U(31)
+    return z
+
+
+def _expand_mask(case):
+    """numpy bool array (True = masked): (h, w), or (L,) for the 1-D cases"""
+    rc = case["mask_recipe"]
+    key = json.dumps([case.get("h"), case.get("w"), case.get("L"), rc], sort_keys=True)
+    if key in _MASK_CACHE:
+        return _MASK_CACHE[key]
+    if case["sub"] == "1d":
+        h, w = 1, case["L"]
+    else:
+        h, w = case["h"], case["w"]
+    yy, xx = np.mgrid[0:h, 0:w]
+    kind, seed = rc["kind"], rc.get("seed", 0)
+    hv = _mix(yy, xx, seed)
+    if kind == "full":
+        m = np.zeros((h, w), dtype=bool)
+    elif kind == "hash":
+        m = (hv % _U(1000)) < _U(rc.get("dens", 400))
+    elif kind == "annulus":
+        # elliptical annulus, off-centre, in integer arithmetic; masked outside and in the hole
+        cy, cx = (2 * h) // 5, (4 * w) // 7
+        r2 = ((yy - cy) * (yy - cy)) * (w * w) + ((xx - cx) * (xx - cx)) * (h * h)
+        hw2 = (h * h) * (w * w)
+        m = (r2 * 9 > hw2) | (r2 * 150 < hw2)
+        m |= (hv % _U(1000)) < _U(30)  # isolated masked pixels inside
+    else:
+        raise ValueError(f"mask recipe {kind}")
+    if kind != "full":
+        # unmasked pixels on every side of the frame, the four corners' neighbourhood, a fully unmasked row,
+        # isolated unmasked pixels in the last column / last row
+        m[0, : min(7, w)] = False
+        m[h - 1, max(0, w - 3):] = False
+        m[min(5, h - 1): min(9, h), w - 1] = False
+        if h > 4:
+            m[h // 2, :] = False
+        if w > 4:
+            m[::5, 0] = False
+        if h > 2 and w > 2:
+            m[h // 3, :: 5] = True
+            m[1, 1] = True
+    n_t = rc.get("n_unmasked")
+    if n_t is not None:
+        n_t = max(1, min(int(n_t), h * w))
+        flat = m.ravel()
+        order = np.argsort(hv.ravel(), kind="stable")  # a fixed pseudo-random order of the pixels
+        cur = int((~flat).sum())
+        if cur > n_t:
+            cand = order[~flat[order]]
+            flat[cand[: cur - n_t]] = True
+        elif cur < n_t:
+            cand = order[flat[order]]
+            flat[cand[: n_t - cur]] = False
+        m = flat.reshape(h, w)
+    if not (~m).any():
+        m[h - 1, w - 1] = False
+    if case["sub"] == "1d":
+        m = m.reshape(w)
+    if len(_MASK_CACHE) > 6:
+        _MASK_CACHE.clear()
+    _MASK_CACHE[key] = m
+    return m
+
+
+def _expand_values(case, n):
+    """n distinct non-zero exact doubles (signed; flavour 'fine' needs > 24 mantissa bits, 'quarter' is dyadic)"""
+    i = np.arange(n, dtype=np.int64)
+    sign = np.where((_mix(i, i * 0 + 7, case.get("vseed", 0)) & _U(1)).astype(bool), 1.0, -1.0)
+    base = (i + 1).astype(np.float64)
+    fl = case.get("flavour", "int")
+    if fl == "quarter":
+        base = base / 4.0
+    elif fl == "fine":
+        base = base + (1 + (i % 3)).astype(np.float64) * 2.0 ** -20
+    return sign * base
+
+
+def _digest(arr):
+    a = np.ascontiguousarray(np.asarray(arr), dtype=np.float64) + 0.0  # -0.0 -> 0.0
+    flat = a.ravel()
+    n = flat.size
+    pos = sorted(set(list(range(min(8, n))) + list(range(max(0, n - 8), n))
+                     + [int(k * (n - 1) // 15) for k in range(16) if n > 0]))
+    return {"shape": [int(d) for d in a.shape], "sha": hashlib.sha1(flat.tobytes()).hexdigest(),
+            "probe": {str(p): q(float(flat[p])) for p in pos}}
+
+
+def _digest_eq(name, got, exp_arr):
+    exp = _digest(exp_arr)
+    if got == exp:
+        return True, ""
+    if got.get("shape") != exp["shape"]:
+        return False, f"{name} has shape {got.get('shape')}, expected {exp['shape']}"
+    for p in sorted(exp["probe"], key=int):
+        if got.get("probe", {}).get(p) != exp["probe"][p]:
+            return False, (f"{name} differs from the expected array, e.g. flat entry {p}: got "
+                           f"{got.get('probe', {}).get(p)}, expected {exp['probe'][p]}")
+    return False, f"{name} differs from the expected array (sha1 of the float64 bytes; the probed entries agree)"
+
+
+def _factor_pairs(t):
+    out = []
+    a = 1
+    while a * a <= t:
+        if t % a == 0:
+            out.append((a, t // a))
+        a += 1
+    return out
+
+
+def _frame_shapes(t, c):
+    """non-square shapes (both orientations) with exactly t pixels, or — when t has no reasonably balanced
+    factorisation — the degenerate 1 x t frame plus the nearest size away from c that has one"""
+    shapes = []
+
+    def balanced(tt):
+        ps = [(a, b) for a, b in _factor_pairs(tt) if a != b and b <= 6 * a]
+        return ps[-1] if ps else None
+
+    p = balanced(t)
+    if p:
+        shapes += [p, (p[1], p[0])]
+    else:
+        if t <= 70000:
+            shapes += [(1, t), (t, 1)]
+        step = -1 if t < c else 1
+        tt = t + step
+        while tt > 1 and abs(tt - t) < 64:
+            p = balanced(tt)
+            if p:
+                shapes += [p, (p[1], p[0])]
+                break
+            tt += step
+    r = math.isqrt(t)
+    if r * r == t:
+        shapes.append((r, r))
+    return shapes
+
+
+def _shrink_large(case):
+    rc = case["mask_recipe"]
+    if rc["kind"] != "full" and "n_unmasked" not in rc:
+        yield {**case, "mask_recipe": {"kind": "full"}}
+    if case.get("flavour", "int") != "int":
+        yield {**case, "flavour": "int"}
+    if case.get("container", "float") != "float":
+        yield {**case, "container": "float"}
+
+    def fix(c):
+        rc2 = dict(c["mask_recipe"])
+        if "n_unmasked" in rc2:
+            size = c["L"] if c["sub"] == "1d" else c["h"] * c["w"]
+            rc2["n_unmasked"] = max(1, min(rc2["n_unmasked"], size))
+        return {**c, "mask_recipe": rc2}
+
+    if case["sub"] == "1d":
+        L = case["L"]
+        for L2 in (L // 2, L - 1024, L - 64, L - 8, L - 1):
+            if 1 <= L2 < L:
+                yield fix({**case, "L": L2})
+    else:
+        h, w = case["h"], case["w"]
+        for dh, dw in ((h - h // 2, 0), (0, w - w // 2), (64, 0), (0, 64), (8, 0), (0, 8), (1, 0), (0, 1)):
+            h2, w2 = h - dh, w - dw
+            if h2 >= 1 and w2 >= 1 and (h2, w2) != (h, w):
+                yield fix({**case, "h": h2, "w": w2})
+    n = rc.get("n_unmasked")
+    if n is not None:
+        for n2 in (n // 2, n - 1024, n - 64, n - 8, n - 1):
+            if 1 <= n2 < n:
+                yield {**case, "mask_recipe": {**rc, "n_unmasked": n2}}
 
 
 class C01(PropertyCheck):
@@ -53,6 +542,13 @@ class C01(PropertyCheck):
     def generate(self, tier, rng):
         idx_cells = 9 if tier == "quick" else 14
         con_cells = 6 if tier == "quick" else 9
+        # 0. default size ladder (thorough generators only, hence also the failing-input search and the
+        #    escalated quick tier): a size gate written without an integer literal leaves no hint, but it
+        #    breaks a loop tie; the search must then reach beyond the small shapes on its own
+        if tier == "thorough":
+            seed = rng.randrange(1 << 16)
+            for c in self.DEFAULT_LADDER:
+                yield from self._large_for_hint(c, seed, n_sizes=1, dims=("frame", "1d"))
         # 1. index tables, exhaustive
         for (h, w) in gen.shapes_upto(idx_cells):
             if tier == "thorough" and h * w > 12:
@@ -106,6 +602,8 @@ class C01(PropertyCheck):
                     for sn in (False, True):
                         yield {"tag": "1d_constructor", "kind": "1dcon", "bits": bits_s, "form": form,
                                "values": qlist(values), "store_native": sn}
+        # 5. reuse histories on real objects (round-4 hardening, see design_notes/C01.md)
+        yield from self._history_cases(tier, rng)
 
     def _constructor_cases(self, rng, m, tag):
         h, w = len(m), len(m[0])
@@ -138,6 +636,10 @@ class C01(PropertyCheck):
     def run_impl(self, case):
         aa = load_autoarray()
         kind = case["kind"]
+        if kind == "hist":
+            return self._run_hist(aa, case)
+        if kind == "large":
+            return self._run_large(aa, case)
         if kind == "1d":
             mask = np.array([c == "1" for c in case["bits"]], dtype=bool)
             m1 = aa.Mask1D(mask=mask, pixel_scales=1.0)
@@ -247,6 +749,13 @@ class C01(PropertyCheck):
     # ------------------------------------------------------------------ model
     def model_requests(self, case, impl_obs):
         kind = case["kind"]
+        if kind == "large":
+            return []  # judged by the vectorised oracle alone (the exact-Rat driver is quadratic at these sizes)
+        if kind == "hist":
+            reqs = []
+            for snap in _hist_walk(case):
+                reqs.extend(_snap_requests(snap))
+            return reqs
         if kind == "index":
             mk = case["mask"]
             return [
@@ -277,6 +786,13 @@ class C01(PropertyCheck):
 
     def model_obs(self, case, responses):
         kind = case["kind"]
+        if kind == "hist":
+            reads, at = [], 0
+            for snap in _hist_walk(case):
+                n = len(_snap_requests(snap))
+                reads.append(_snap_fold(snap, responses[at:at + n]))
+                at += n
+            return {"reads": reads}
         for r in responses:
             if "err" in r:
                 return {"err": r["err"]}
@@ -317,6 +833,10 @@ class C01(PropertyCheck):
         if isinstance(obs, dict) and "err" in obs:
             return False, f"implementation raised {obs}"
         kind = case["kind"]
+        if kind == "hist":
+            return self._oracle_hist(case, obs)
+        if kind == "large":
+            return self._oracle_large(case, obs)
         if kind == "1dcon":
             mask = [c == "1" for c in case["bits"]]
             vals = [Fraction(v) for v in case["values"]]
@@ -410,10 +930,22 @@ class C01(PropertyCheck):
         return True, ""
 
     def nontrivial(self, case, obs):
+        if case["kind"] == "large":
+            m = _expand_mask(case)
+            return bool(m.any()) and not bool(m.all())
+        if case["kind"] == "hist":
+            bits = case["masks"][0]["bits"]
+            return "0" in bits and "1" in bits
         bits = case.get("bits") or case["mask"]["bits"]
         return "0" in bits and "1" in bits
 
     def shrink(self, case):
+        if case["kind"] == "hist":
+            yield from _shrink_hist(case)
+            return
+        if case["kind"] == "large":
+            yield from _shrink_large(case)
+            return
         if case["kind"] != "index":
             return
         mj = case["mask"]
@@ -421,6 +953,654 @@ class C01(PropertyCheck):
         for i, c in enumerate(bits):
             if c == "0" and bits.count("0") > 1:
                 yield {**case, "mask": {**mj, "bits": bits[:i] + "1" + bits[i + 1:]}}
+
+    # ================================================================== round 4: reuse histories (kind "hist")
+    def _history_cases(self, tier, rng):
+        n = 50 if tier == "quick" else 300
+        templates = (self._h_mask_edit, self._h_mask_edit, self._h_twin_values, self._h_twin_masks,
+                     self._h_fault, self._h_shared, self._h_derive, self._h_1d)
+        for _ in range(n):
+            for tpl in templates:
+                c = tpl(rng)
+                try:
+                    if not list(_hist_walk(c)):
+                        continue
+                except HistInvalid:
+                    continue
+                yield c
+
+    # -- ingredients
+    @staticmethod
+    def _h_world(rng):
+        h, w = rng.randint(1, 6), rng.randint(1, 6)
+        if h * w < 2:
+            w = 2
+        m, kind = gen.random_mask(rng, h, w)
+        return h, w, [b for r in m for b in r], mask_json(m), kind
+
+    @staticmethod
+    def _h_values(rng, struct, n, flavour=None):
+        ints = gen.distinct_ints(rng, n) if n else []
+        fl = flavour or rng.choice(["int", "int", "quarter", "fine"])
+        if fl == "quarter":
+            v = [Fraction(x, 4) for x in ints]
+        elif fl == "fine":  # more than 24 significant bits: a narrowed dtype cannot hold them
+            v = [Fraction(x) + Fraction(1 + k % 3, 1 << 20) for k, x in enumerate(ints)]
+        else:
+            v = [Fraction(x) for x in ints]
+        if struct in ("array", "array1d"):
+            return qlist(v), fl
+        return [[q(x), q(-3 * x + 1)] for x in v], fl
+
+    def _h_build(self, rng, name, m_idx, bits, struct=None, form=None, sn=None, flavour=None):
+        struct = struct or rng.choice(["array", "array", "grid", "vector"])
+        form = form or rng.choice(["slim", "native"])
+        sn = (rng.random() < 0.5) if sn is None else sn
+        n = len(bits) if form == "native" else bits.count(False)
+        values, fl = self._h_values(rng, struct, n, flavour)
+        cont = rng.choice(["float", "int", "list"] if fl == "int" else ["float", "list"])
+        st = {"op": "build", "name": name, "m": m_idx, "struct": struct, "form": form, "sn": sn,
+              "values": values, "container": cont}
+        if cont != "list" and rng.random() < 0.15:
+            st["readonly"] = True  # the caller's array is read-only: the constructor must not need to write it
+        return st
+
+    @staticmethod
+    def _h_edit(rng, bits, w, m_idx, dim1=False):
+        """1-2 in-place pixel edits through the mask's public __setitem__; updates `bits`"""
+        k = rng.choice([1, 1, 2])
+        idxs = rng.sample(range(len(bits)), min(k, len(bits)))
+        cells = []
+        for i in idxs:
+            new = not bits[i]
+            trial = list(bits)
+            trial[i] = new
+            if all(trial):
+                continue
+            bits[i] = new
+            cells.append([i, new] if dim1 else [i // w, i % w, new])
+        if not cells:  # the only unmasked pixel was chosen: unmask another one instead
+            i = next(j for j, b in enumerate(bits) if b)
+            bits[i] = False
+            cells.append([i, False] if dim1 else [i // w, i % w, False])
+        how = "item"
+        if not dim1 and len({c[-1] for c in cells}) == 1 and rng.random() < 0.4:
+            how = "boolkey"
+        return {"op": "edit_mask", "m": m_idx, "cells": cells, "how": how}
+
+    @staticmethod
+    def _h_read_index(rng, m_idx, via="mask"):
+        order = ["nfs", "unm", "msk", "pix"]
+        rng.shuffle(order)
+        if rng.random() < 0.25:
+            order = order[: rng.randint(1, 3)]
+        return {"op": "read_index", "m": m_idx, "via": via, "order": order}
+
+    @staticmethod
+    def _h_read(rng, name):
+        return {"op": "read_struct", "name": name,
+                "views": rng.choice([["native", "slim"], ["slim", "native"], ["native"], ["slim"]])}
+
+    # -- templates
+    def _h_mask_edit(self, rng):
+        """(i) same Mask2D object: read -> edit a pixel in place -> read again / build again"""
+        h, w, bits, mj, kind = self._h_world(rng)
+        steps = []
+        if rng.random() < 0.3:
+            steps.append({"op": "decoy", "m": 0})
+        hold = rng.random() < 0.5
+        if hold:
+            steps.append({"op": "hold_di", "m": 0})
+        pre = rng.choice(["index", "struct", "both"])
+        if pre in ("index", "both"):
+            steps.append(self._h_read_index(rng, 0, rng.choice(["mask", "held"]) if hold else "mask"))
+        if pre in ("struct", "both"):
+            if rng.random() < 0.5:
+                steps.append(self._h_build(rng, "A", 0, bits, form="slim", sn=True))
+            else:
+                steps.append(self._h_build(rng, "A", 0, bits))
+            steps.append(self._h_read(rng, "A"))
+        for r in range(rng.choice([1, 1, 2])):
+            steps.append(self._h_edit(rng, bits, w, 0))
+            vias = ["mask", "held"] if hold else ["mask"]
+            rng.shuffle(vias)
+            for via in vias[: rng.randint(1, len(vias))]:
+                steps.append(self._h_read_index(rng, 0, via))
+            nm = f"B{r}"
+            if rng.random() < 0.5:
+                steps.append(self._h_build(rng, nm, 0, bits, form="slim", sn=rng.random() < 0.7))
+            else:
+                steps.append(self._h_build(rng, nm, 0, bits))
+            steps.append(self._h_read(rng, nm))
+        return {"tag": "hist_mask_edit", "kind": "hist", "masks": [mj], "steps": steps}
+
+    def _h_twin_values(self, rng):
+        """(ii) near-duplicate twins: the same construction repeated with values inside np.allclose's default
+        tolerance of the first ones (rel 2^-20, or 2^-34 absolute on tiny values) on the same mask object"""
+        h, w, bits, mj, kind = self._h_world(rng)
+        a = self._h_build(rng, "A", 0, bits, flavour=rng.choice(["int", "quarter"]))
+        a.pop("readonly", None)
+        a["container"] = rng.choice(["float", "list"])
+        tiny = rng.random() < 0.3
+
+        def tw(x):
+            x = Fraction(x)
+            if tiny:
+                return x / (1 << 40) + Fraction(1, 1 << 34)
+            return x * (1 + Fraction(1, 1 << 20))
+
+        def base(x):
+            return Fraction(x) / (1 << 40) if tiny else Fraction(x)
+
+        b = _copy.deepcopy(a)
+        b["name"] = "A2"
+        if a["struct"] == "array":
+            b["values"] = [q(tw(v)) for v in a["values"]]
+            a["values"] = [q(base(v)) for v in a["values"]]
+        else:
+            b["values"] = [[q(tw(p[0])), q(tw(p[1]))] for p in a["values"]]
+            a["values"] = [[q(base(p[0])), q(base(p[1]))] for p in a["values"]]
+        steps = [a, self._h_read(rng, "A"), b, self._h_read(rng, "A2")]
+        if rng.random() < 0.5:
+            steps.append(self._h_read(rng, "A"))
+        return {"tag": "hist_twin_values", "kind": "hist", "masks": [mj], "steps": steps}
+
+    def _h_twin_masks(self, rng):
+        """(ii)/(iv) two masks of the same shape (and mostly the same number of unmasked pixels) used
+        alternately; the same slim values are given to both"""
+        h, w, bits, mj, kind = self._h_world(rng)
+        bits1 = list(bits)
+        un = [i for i, b in enumerate(bits1) if not b]
+        ma = [i for i, b in enumerate(bits1) if b]
+        h1, w1 = h, w
+        if h != w and rng.random() < 0.25:  # same bytes, transposed SHAPE (a memo keyed on the buffer only)
+            h1, w1 = w, h
+        elif un and ma and rng.random() < 0.75:  # move one unmasked pixel: same count, different content
+            bits1[rng.choice(un)] = True
+            bits1[rng.choice(ma)] = False
+        else:
+            i = rng.randrange(len(bits1))
+            bits1[i] = not bits1[i]
+            if all(bits1):
+                bits1[i] = False
+        mj1 = {"h": h1, "w": w1, "bits": "".join("1" if b else "0" for b in bits1)}
+        order = [0, 1]
+        rng.shuffle(order)
+        steps = [self._h_read_index(rng, k) for k in order]
+        struct = rng.choice(["array", "grid", "vector"])
+        sn = rng.random() < 0.6
+        a = self._h_build(rng, "A", 0, bits, struct=struct, form="slim", sn=sn)
+        b = self._h_build(rng, "B", 1, bits1, struct=struct, form="slim", sn=sn)
+        if bits.count(False) == bits1.count(False):
+            b["values"], b["container"] = list(a["values"]), a["container"]
+        pair = [(a, "A"), (b, "B")]
+        rng.shuffle(pair)
+        for st, nm in pair:
+            steps += [st, self._h_read(rng, nm)]
+        steps.append(self._h_read_index(rng, order[0]))
+        steps.append(self._h_read(rng, pair[0][1]))
+        return {"tag": "hist_twin_masks", "kind": "hist", "masks": [mj, mj1], "steps": steps}
+
+    def _h_fault(self, rng):
+        """(iii) a call raises, then the same objects are used again"""
+        h, w, bits, mj, kind = self._h_world(rng)
+        steps = [self._h_build(rng, "A", 0, bits), self._h_read(rng, "A")]
+        how = rng.choice(["short_slim", "bad_native_shape", "mask_oob", "bad_boolkey", "stale_read", "stale_read"])
+        f = {"op": "fault", "how": how, "m": 0}
+        if how == "stale_read":
+            cand = []
+            for i in range(len(bits)):
+                t = list(bits)
+                t[i] = not t[i]
+                if not all(t):
+                    cand.append(i)
+            if not cand:
+                f["how"] = "mask_oob"
+            else:
+                i = rng.choice(cand)
+                f.update({"name": "A", "cell": [i // w, i % w]})
+        steps.append(f)
+        steps.append(self._h_read_index(rng, 0))
+        if f["how"] == "stale_read" or rng.random() < 0.5:
+            steps.append(self._h_read(rng, "A"))
+        steps += [self._h_build(rng, "B", 0, bits), self._h_read(rng, "B")]
+        return {"tag": "hist_fault", "kind": "hist", "masks": [mj], "steps": steps}
+
+    def _h_shared(self, rng):
+        """(iv)/(v) one mask object shared by an array, a grid and a vector field, built and read in random
+        orders, with decoy reads of every other derived quantity in between"""
+        h, w, bits, mj, kind = self._h_world(rng)
+        names = [("array", "A"), ("grid", "G"), ("vector", "V")]
+        rng.shuffle(names)
+        steps = []
+        if rng.random() < 0.5:
+            steps.append({"op": "decoy", "m": 0})
+        for struct, nm in names:
+            b = self._h_build(rng, nm, 0, bits, struct=struct)
+            steps.append(b)
+            if rng.random() < 0.4:
+                steps.append({"op": "decoy", "name": nm})
+            # the caller overwrites the buffer it passed in: Array2D copies its input, so nothing may change
+            if struct == "array" and b["container"] != "list" and not b.get("readonly") and rng.random() < 0.5:
+                steps.append({"op": "caller_edit", "name": nm})
+        reads = [nm for _, nm in names] * rng.choice([1, 2])
+        rng.shuffle(reads)
+        for nm in reads:
+            steps.append(self._h_read(rng, nm))
+            if rng.random() < 0.2:
+                steps.append(self._h_read_index(rng, 0))
+        return {"tag": "hist_shared", "kind": "hist", "masks": [mj], "steps": steps}
+
+    def _h_derive(self, rng):
+        """derived objects (copy / arithmetic) must not carry stale derived state: edit in place, read"""
+        h, w, bits, mj, kind = self._h_world(rng)
+        form = rng.choice(["slim", "native"])
+        editable = rng.random() < 0.75
+        sn = (form == "native") if editable else (form != "native")
+        a = self._h_build(rng, "A", 0, bits, form=form, sn=sn, flavour=rng.choice(["int", "quarter"]))
+        a.pop("readonly", None)
+        steps = [a]
+        if rng.random() < 0.7:
+            steps.append(self._h_read(rng, "A"))
+        how = rng.choice(["copy", "deepcopy", "mul2", "neg", "add1"])
+        steps.append({"op": "derive", "name": "B", "from": "A", "how": how})
+
+        def edit(nm):
+            new = rng.randint(100, 200)
+            val = q(new) if a["struct"] == "array" else [q(new), q(-new)]
+            return {"op": "edit_struct", "name": nm, "index": rng.randrange(len(a["values"])), "value": val}
+
+        if editable and a["values"] and rng.random() < 0.7:
+            steps.append(edit("B"))
+        steps.append(self._h_read(rng, "B"))
+        if editable and a["values"]:
+            steps.append(edit("A"))
+        steps.append(self._h_read(rng, "A"))
+        steps.append(self._h_read(rng, "B"))
+        return {"tag": "hist_derive", "kind": "hist", "masks": [mj], "steps": steps}
+
+    def _h_1d(self, rng):
+        """1-D: Mask1D edited in place / twin values, Array1D rebuilt on the same mask object"""
+        L = rng.randint(2, 7)
+        bits = [rng.random() < 0.4 for _ in range(L)]
+        if all(bits):
+            bits[rng.randrange(L)] = False
+        mj = {"bits": "".join("1" if b else "0" for b in bits)}
+
+        def build(nm):
+            st = self._h_build(rng, nm, 0, bits, struct="array1d", flavour=rng.choice(["int", "quarter"]))
+            st.pop("readonly", None)
+            return st
+
+        steps = [build("A"), self._h_read(rng, "A")]
+        if rng.random() < 0.6:
+            steps.append(self._h_edit(rng, bits, L, 0, dim1=True))
+            steps += [build("B"), self._h_read(rng, "B")]
+        else:
+            b = _copy.deepcopy(steps[0])
+            b["name"] = "B"
+            steps[0]["container"] = b["container"] = rng.choice(["float", "list"])
+            b["values"] = [q(Fraction(v) * (1 + Fraction(1, 1 << 20))) for v in b["values"]]
+            steps += [b, self._h_read(rng, "B"), self._h_read(rng, "A")]
+        return {"tag": "hist_1d", "kind": "hist", "dim": 1, "masks": [mj], "steps": steps}
+
+    # -- execution on the real objects
+    def _run_hist(self, aa, case):
+        dim1 = case.get("dim") == 1
+        masks, shapes = [], []
+        for mj in case["masks"]:
+            if dim1:
+                arr = np.array([c == "1" for c in mj["bits"]], dtype=bool)
+                masks.append(aa.Mask1D(mask=arr, pixel_scales=1.0))
+                shapes.append((None, len(arr)))
+            else:
+                arr = np.array([c == "1" for c in mj["bits"]], dtype=bool).reshape(mj["h"], mj["w"])
+                # anisotropic scales and an off-centre origin: irrelevant to C01 and must stay so
+                masks.append(_mask2d(aa, arr, scales=(1.0, 2.0), origin=(0.5, -1.0)))
+                shapes.append((mj["h"], mj["w"]))
+        held, structs, reads = {}, {}, []
+        for st in case["steps"]:
+            op = st["op"]
+            if op == "hold_di":
+                held[st["m"]] = masks[st["m"]].derive_indexes
+            elif op == "decoy":
+                if "name" in st:
+                    _decoy_struct(structs[st["name"]]["obj"])
+                else:
+                    _decoy_mask(masks[st["m"]], dim1)
+            elif op == "read_index":
+                mask = masks[st["m"]]
+                try:
+                    if st["via"] == "held":
+                        if st["m"] not in held:
+                            held[st["m"]] = mask.derive_indexes
+                        di = held[st["m"]]
+                    else:
+                        di = mask.derive_indexes
+                    out = {}
+                    for k in st["order"]:
+                        if k == "nfs":
+                            out["native_for_slim"] = [[int(a), int(b)] for a, b in np.asarray(di.native_for_slim)]
+                        elif k == "unm":
+                            out["unmasked_slim"] = [int(v) for v in np.asarray(di.unmasked_slim)]
+                        elif k == "msk":
+                            out["masked_slim"] = [int(v) for v in np.asarray(di.masked_slim)]
+                        else:
+                            out["pixels_in_mask"] = int(mask.pixels_in_mask)
+                    reads.append(out)
+                except Exception as e:
+                    reads.append({"err": type(e).__name__, "msg": str(e)[:200]})
+            elif op == "edit_mask":
+                mask = masks[st["m"]]
+                h, w = shapes[st["m"]]
+                if st.get("how") == "boolkey":
+                    key = np.zeros((h, w), dtype=bool)
+                    for y, x, v in st["cells"]:
+                        key[y, x] = True
+                    mask[key] = bool(st["cells"][0][-1])
+                else:
+                    for cell in st["cells"]:
+                        if dim1:
+                            mask[cell[0]] = bool(cell[-1])
+                        else:
+                            mask[cell[0], cell[1]] = bool(cell[-1])
+            elif op == "build":
+                mask = masks[st["m"]]
+                h, w = shapes[st["m"]]
+                vals = _box(_np_values(st["struct"], st["form"], st["values"], h, w), st.get("container", "float"))
+                if st.get("readonly") and isinstance(vals, np.ndarray):
+                    vals.flags.writeable = False
+                sn = st["sn"]
+                if st["struct"] == "array":
+                    obj = aa.Array2D(values=vals, mask=mask, store_native=sn)
+                elif st["struct"] == "grid":
+                    obj = aa.Grid2D(values=vals, mask=mask, store_native=sn)
+                elif st["struct"] == "vector":
+                    obj = aa.VectorYX2D(values=vals, grid=aa.Grid2D.from_mask(mask=mask), mask=mask, store_native=sn)
+                else:
+                    obj = aa.Array1D(values=vals, mask=mask, store_native=sn)
+                structs[st["name"]] = {"obj": obj, "struct": st["struct"], "m": st["m"], "form": st["form"],
+                                       "sn": sn, "buf": vals}
+            elif op == "read_struct":
+                s = structs[st["name"]]
+                try:
+                    obj = s["obj"]
+                    stored = np.asarray(obj.array)
+                    if s["struct"] == "array":
+                        out = {"stored": "native" if stored.ndim == 2 else "slim"}
+                    elif s["struct"] == "array1d":
+                        L = shapes[s["m"]][1]
+                        out = {"stored": "native" if len(stored) == L and s["sn"] else "slim"}
+                    else:
+                        out = {"stored": "native" if stored.ndim == 3 else "slim"}
+                    for v in st["views"]:
+                        out[v] = _flat_view(s["struct"], getattr(obj, v).array)
+                    reads.append(out)
+                except Exception as e:
+                    reads.append({"err": type(e).__name__, "msg": str(e)[:200]})
+            elif op == "edit_struct":
+                s = structs[st["name"]]
+                h, w = shapes[s["m"]]
+                k = st["index"]
+                idx = k if (s["form"] == "slim" or s["struct"] == "array1d") else (k // w, k % w)
+                if s["struct"] in ("array", "array1d"):
+                    s["obj"][idx] = float(Fraction(st["value"]))
+                else:
+                    s["obj"][idx] = [float(Fraction(st["value"][0])), float(Fraction(st["value"][1]))]
+            elif op == "derive":
+                s = structs[st["from"]]
+                how = st["how"]
+                if how == "copy":
+                    obj = _copy.copy(s["obj"])
+                elif how == "deepcopy":
+                    obj = _copy.deepcopy(s["obj"])
+                elif how == "mul2":
+                    obj = s["obj"] * 2.0
+                elif how == "neg":
+                    obj = -s["obj"]
+                else:
+                    obj = s["obj"] + 1.0
+                structs[st["name"]] = {**s, "obj": obj, "buf": None}
+            elif op == "caller_edit":
+                buf = structs[st["name"]]["buf"]
+                if isinstance(buf, np.ndarray) and buf.flags.writeable:
+                    buf[...] = 77
+            elif op == "fault":
+                mask = masks[st.get("m", 0)]
+                h, w = shapes[st.get("m", 0)]
+                how = st["how"]
+                try:
+                    if how == "short_slim":
+                        aa.Array2D(values=np.ones(int(mask.pixels_in_mask) + 1 + h * w), mask=mask)
+                    elif how == "bad_native_shape":
+                        aa.Array2D(values=np.ones((h + 1, w + 2)), mask=mask, store_native=True)
+                    elif how == "mask_oob":
+                        mask[h, 0] = False
+                    elif how == "bad_boolkey":
+                        mask[np.zeros((h + 2, w + 3), dtype=bool)] = True
+                    elif how == "stale_read":
+                        s = structs[st["name"]]
+                        m2 = masks[s["m"]]
+                        y, x = st["cell"]
+                        old = bool(np.asarray(m2.array)[y, x])
+                        m2[y, x] = not old
+                        try:
+                            np.asarray(s["obj"].native.array)
+                            np.asarray(s["obj"].slim.array)
+                        except Exception:
+                            pass
+                        finally:
+                            m2[y, x] = old
+                except Exception:
+                    pass
+            else:
+                raise ValueError(op)
+        return {"reads": reads}
+
+    def _oracle_hist(self, case, obs):
+        snaps = list(_hist_walk(case))
+        reads = obs.get("reads", [])
+        if len(reads) != len(snaps):
+            return False, f"history produced {len(reads)} observations, expected {len(snaps)}"
+        for k, (snap, got) in enumerate(zip(snaps, reads)):
+            what = "index lists" if snap["what"] == "index" else snap["struct"]
+            ok, d = _oracle_snapshot(snap, got, f"history read #{k} ({what})")
+            if not ok:
+                return False, d
+        return True, ""
+
+    # ================================================================== round 4: size-directed cases (kind "large")
+    LARGE_MAX_HINT = 400000       # a hint above this is not feasible in pure Python within the budget
+    LARGE_MAX_PIXELS = 450000
+
+    def generate_large(self, hints, rng):
+        """for every new integer constant c of the anchored source: cases whose frame pixels H*W (non-square,
+        both orientations), number of unmasked pixels, rows H, columns W and 1-D length are c-1, c, c+1,
+        c + c//3 + 1 and 2c+1.  Round-robin over the hints so that one hint cannot use up the budget."""
+        gens = [self._large_for_hint(c, rng.randrange(1 << 16)) for c in sorted(set(hints))
+                if 2 <= c <= self.LARGE_MAX_HINT]
+        while gens:
+            for g in list(gens):
+                got = list(itertools.islice(g, 12))
+                if not got:
+                    gens.remove(g)
+                yield from got
+
+    DEFAULT_LADDER = (1024, 4096, 16384, 49152)
+
+    def _large_for_hint(self, c, seed, n_sizes=5, dims=("frame", "unmasked", "thin", "1d")):
+        sizes = [c + c // 3 + 1, c, c + 1, c - 1, 2 * c + 1]
+        if c > 70000:
+            sizes = sizes[:4]
+        sizes = sizes[:n_sizes]
+        combos = [("slim", True), ("native", False), ("native", True), ("slim", False)]
+        flav = ["int", "quarter", "fine"]
+        conts = ["float", "int", "list"]
+        k = [seed]
+
+        def world(dim, h, w, recipe, full_subs=True):
+            k[0] += 1
+            base = {"kind": "large", "hint": c, "dim": dim, "h": h, "w": w, "mask_recipe": recipe,
+                    "vseed": k[0] % 97}
+            yield {**base, "tag": f"large_{dim}_index", "sub": "index"}
+            subs = [("array", cb) for cb in combos] + [("grid", cb) for cb in combos] + \
+                   [("vector", combos[k[0] % 4])]
+            if not full_subs:
+                subs = [("array", combos[0]), ("array", combos[1]), ("grid", combos[k[0] % 2]),
+                        ("grid", combos[2 + k[0] % 2])]
+            for j, (sub, (form, sn)) in enumerate(subs):
+                fl = flav[(k[0] + j) % 3]
+                cont = conts[(k[0] + j) % 3]
+                if cont == "int" and fl != "int":
+                    cont = "float"
+                yield {**base, "tag": f"large_{dim}_{sub}", "sub": sub, "form": form, "store_native": sn,
+                       "flavour": fl, "container": cont}
+
+        for t in sizes:
+            if t < 2:
+                continue
+            # (a) frame pixels H*W == t, non-square, both orientations; structured and pseudo-random masks
+            if t <= self.LARGE_MAX_PIXELS and "frame" in dims:
+                for j, (h, w) in enumerate(_frame_shapes(t, c)):
+                    recipe = {"kind": "annulus", "seed": seed + j} if (j + t) % 2 == 0 else \
+                        {"kind": "hash", "seed": seed + j, "dens": 350}
+                    yield from world("frame", h, w, recipe)
+            # (b) exactly t unmasked pixels in a larger non-square frame
+            if t * 3 // 2 <= self.LARGE_MAX_PIXELS and "unmasked" in dims:
+                h = max(1, math.isqrt(t * 3 // 2 * 10 // 13))
+                w = -(-(t * 3 // 2) // h) + 1
+                if t % 2:
+                    h, w = w, h
+                yield from world("unmasked", h, w, {"kind": "hash", "seed": seed + 5, "dens": 300,
+                                                    "n_unmasked": t}, full_subs=(t <= 40000))
+            # (c) t rows / t columns of a thin frame
+            if t * 2 <= self.LARGE_MAX_PIXELS and c <= 70000 and t in sizes[:3] and "thin" in dims:
+                thin = 3 if t <= 20000 else 2
+                yield from world("rows", t, thin, {"kind": "hash", "seed": seed + 6, "dens": 400}, full_subs=False)
+                yield from world("cols", thin, t, {"kind": "hash", "seed": seed + 7, "dens": 400}, full_subs=False)
+            # (d) 1-D length t, and exactly t unmasked entries of a longer 1-D mask
+            if "1d" not in dims:
+                continue
+            k[0] += 1
+            yield {"kind": "large", "tag": "large_1d", "sub": "1d", "hint": c, "dim": "len1d", "L": t,
+                   "mask_recipe": {"kind": "hash", "seed": seed + 8, "dens": 400}, "vseed": k[0] % 97,
+                   "flavour": flav[k[0] % 3]}
+            yield {"kind": "large", "tag": "large_1d", "sub": "1d", "hint": c, "dim": "unmasked1d",
+                   "L": t + t // 2 + 3, "mask_recipe": {"kind": "hash", "seed": seed + 9, "dens": 400,
+                                                        "n_unmasked": t}, "vseed": k[0] % 97,
+                   "flavour": flav[(k[0] + 1) % 3]}
+
+    @staticmethod
+    def _large_inputs(case, m):
+        """(values in the requested input form as float64 ndarray, native-shaped values) for a 2-D large case"""
+        h, w = m.shape
+        nat = _expand_values(case, h * w).reshape(h, w)
+        if case["sub"] != "array":
+            nat = np.stack((nat, -3.0 * nat + 1.0), axis=-1)
+        return (nat[~m] if case["form"] == "slim" else nat), nat
+
+    def _run_large(self, aa, case):
+        m = _expand_mask(case)
+        sub = case["sub"]
+        if sub == "1d":
+            from autoarray.structures.arrays import array_1d_util
+            from autoarray.mask import mask_1d_util
+
+            L = case["L"]
+            m1 = aa.Mask1D(mask=m.copy(), pixel_scales=1.0)
+            native = _expand_values(case, L)
+            slim = array_1d_util.array_1d_slim_from(array_1d_native=native.copy(), mask_1d=m.copy())
+            back = array_1d_util.array_1d_native_from(array_1d_slim=np.asarray(slim).copy(), mask_1d=m.copy())
+            nfs = mask_1d_util.native_index_for_slim_index_1d_from(mask_1d=m.copy())
+            out = {"slim": _digest(slim), "native_back": _digest(back), "nfs": _digest(nfs)}
+            slim_in = native[~m]
+            for nm, vals, sn in (("from_slim", slim_in, False), ("from_slim_sn", slim_in, True),
+                                 ("from_native", native, False), ("from_native_sn", native, True)):
+                a = aa.Array1D(values=vals.copy(), mask=m1, store_native=sn)
+                out[nm + ".slim"] = _digest(a.slim.array)
+                out[nm + ".native"] = _digest(a.native.array)
+            return out
+        mask = _mask2d(aa, m.copy(), scales=(0.75, 1.25), origin=(0.5, -0.25))
+        if sub == "index":
+            di = mask.derive_indexes
+            return {"native_for_slim": _digest(di.native_for_slim), "unmasked_slim": _digest(di.unmasked_slim),
+                    "masked_slim": _digest(di.masked_slim), "pixels_in_mask": int(mask.pixels_in_mask)}
+        vals, _ = self._large_inputs(case, m)
+        vals = _box(np.ascontiguousarray(vals), case.get("container", "float"))
+        before = np.array(vals).copy()
+        sn = case["store_native"]
+        if sub == "array":
+            s = aa.Array2D(values=vals, mask=mask, store_native=sn)
+            nd_native = 2
+        elif sub == "grid":
+            s = aa.Grid2D(values=vals, mask=mask, store_native=sn)
+            nd_native = 3
+        else:
+            s = aa.VectorYX2D(values=vals, grid=aa.Grid2D.from_mask(mask=mask), mask=mask, store_native=sn)
+            nd_native = 3
+        stored = np.asarray(s.array)
+        out = {"stored": "native" if stored.ndim == nd_native else "slim",
+               "slim": _digest(s.slim.array), "native": _digest(s.native.array),
+               "input_unchanged": bool(np.array_equal(np.array(vals), before))}
+        # the round trips of clause (c) through the public views (the gathers / scatters run once more)
+        if sub in ("array", "grid"):
+            out["native.slim"] = _digest(s.native.slim.array)
+        if sub == "array":
+            out["slim.native"] = _digest(s.slim.native.array)
+        return out
+
+    def _oracle_large(self, case, obs):
+        m = _expand_mask(case)
+        sub = case["sub"]
+        where = f"[{case.get('dim')} ~ {case.get('hint')}; " + \
+                (f"L={case['L']}" if sub == "1d" else f"{case['h']}x{case['w']}") + \
+                f", {int((~m).sum())} unmasked] "
+        if sub == "1d":
+            native = _expand_values(case, case["L"])
+            exp_slim = native[~m]
+            exp_back = np.where(m, 0.0, native)
+            checks = [("1-D slim (array_1d_slim_from)", obs["slim"], exp_slim),
+                      ("1-D native(slim(a)) (array_1d_native_from)", obs["native_back"], exp_back),
+                      ("1-D native_index_for_slim_index", obs["nfs"], np.flatnonzero(~m))]
+            for nm in ("from_slim", "from_slim_sn", "from_native", "from_native_sn"):
+                checks.append((f"Array1D[{nm}].slim", obs[nm + ".slim"], exp_slim))
+                checks.append((f"Array1D[{nm}].native", obs[nm + ".native"], exp_back))
+            for name, got, exp in checks:
+                ok, d = _digest_eq(name, got, exp)
+                if not ok:
+                    return False, where + d
+            return True, ""
+        h, w = m.shape
+        unm = np.flatnonzero(~m.ravel())
+        if sub == "index":
+            exp_nfs = np.stack((unm // w, unm % w), axis=1)
+            for name, key, exp in (("native_for_slim (row-major (y,x) of the unmasked pixels)", "native_for_slim", exp_nfs),
+                                   ("unmasked_slim", "unmasked_slim", unm),
+                                   ("masked_slim", "masked_slim", np.flatnonzero(m.ravel()))):
+                ok, d = _digest_eq(name, obs[key], exp)
+                if not ok:
+                    return False, where + d
+            if obs["pixels_in_mask"] != int(unm.size):
+                return False, where + f"pixels_in_mask {obs['pixels_in_mask']} != {int(unm.size)}"
+            return True, ""
+        _, nat = self._large_inputs(case, m)
+        exp_slim = nat[~m]  # numpy boolean indexing: row-major order of the unmasked pixels
+        exp_native = np.zeros_like(nat)
+        exp_native[~m] = exp_slim
+        tagd = f"{sub}(form={case['form']}, store_native={case['store_native']}, {case.get('container')})"
+        for name, key, exp in ((".slim", "slim", exp_slim), (".native", "native", exp_native),
+                               (".native.slim", "native.slim", exp_slim), (".slim.native", "slim.native", exp_native)):
+            if key not in obs:
+                continue
+            ok, d = _digest_eq(tagd + name, obs[key], exp)
+            if not ok:
+                return False, where + d
+        if obs.get("input_unchanged") is False:
+            return False, where + f"the {sub} constructor wrote into the array passed to it"
+        want = "native" if case["store_native"] else "slim"
+        if obs["stored"] != want:
+            return False, where + f"stored form {obs['stored']} != requested {want}"
+        return True, ""
 
     def theorems_for(self, case):
         return {
